@@ -155,10 +155,32 @@ def gen_cfg(rnd, family=None, ne=None, width=None, only_edges=None, cutoffs=True
     return cfg
 
 
-def make_map(g, name='m', use_latlon=False):
+def make_map(g, name='m', use_latlon=False, linked=None):
     from leuvenmapmatching.map.inmem import InMemMap
     import copy
-    return InMemMap(name, use_latlon=use_latlon, use_rtree=False, graph=copy.deepcopy(g))
+    return InMemMap(name, use_latlon=use_latlon, use_rtree=False, graph=copy.deepcopy(g),
+                    linked_edges=copy.deepcopy(linked) if linked else None)
+
+
+def gen_linked(case, p=0.3):
+    """for some cases: pairs of directed edges declared as linked parallel roads (InMemMap(linked_edges=...)): the map then
+    also offers the move from an edge to the edges linked to it.  Drawn from its own stream (the case itself is unchanged)."""
+    import zlib
+    r2 = random.Random(zlib.crc32(repr(('linked', sorted(map(str, case['graph'])), case['trace'])).encode()))
+    if r2.random() >= p:
+        return None
+    E = edges_of(case['graph'])
+    if len(E) < 2:
+        return None
+    linked = {}
+    for _ in range(r2.randint(1, 3)):
+        a, b = r2.sample(E, 2)
+        if a[0] in b or a[1] in b:
+            continue            # share a node: not a parallel road
+        linked.setdefault(a, set()).add(b)
+        if r2.random() < 0.7:
+            linked.setdefault(b, set()).add(a)
+    return linked or None
 
 
 def make_matcher(mp, cfg, warmup=None):
@@ -205,6 +227,45 @@ def gen_laps_case(rnd):
     start = rnd.randrange(n)
     tr = [per[(start + j) % n] for j in range(k)]
     return g, tr
+
+
+def gen_merge_linked_case(rnd):
+    """two one-way feeders merging into one node, a separate parallel road, and only ONE feeder linked to the parallel road:
+    the moves the map offers from two edges that end in the same node differ"""
+    L = labels(7, rnd.choice(['str', 'int']))
+    a1, a2, b, f, c, d, g_ = L
+    ys = rnd.sample([0, 1, 1.5, 2, 3], 2)
+    pts = {a1: (ys[0], 0), b: (ys[0], 2), f: (ys[0], 4), c: (ys[1], 0), d: (ys[1], 2), g_: (ys[1], 4),
+           a2: (ys[0] + rnd.choice([-1.5, -1, 1, 1.5]), rnd.choice([0.5, 1]))}
+    order = [a1, a2, b, f, c, d, g_]
+    rnd.shuffle(order)
+    nb = {a1: [b], a2: [b], b: [f], f: [], c: [d], d: [g_], g_: []}
+    g = {k: (pts[k], nb[k]) for k in order}
+    lk = rnd.choice([a1, a2])
+    linked = {(lk, b): {(c, d)}}
+    if rnd.random() < 0.5:
+        linked[(c, d)] = {(lk, b)}
+
+    def on(p, q, t, off=0.0):
+        return (p[0] + t * (q[0] - p[0]) + off, p[1] + t * (q[1] - p[1]))
+    other = a2 if lk == a1 else a1
+    # the first fixes may lie on either feeder (the order of the candidates in a column follows the earlier fixes)
+    if rnd.random() < 0.7:
+        # first fix between the feeders, a little closer to one of them; second fix on one of them
+        t0, t1 = rnd.choice([0.3, 0.4, 0.5]), rnd.choice([0.6, 0.7])
+        near, far = rnd.choice([(lk, other), (other, lk)])
+        pn, pf = on(pts[near], pts[b], t0), on(pts[far], pts[b], t0)
+        w_ = rnd.choice([0.4, 0.45])
+        tr = [(pn[0] + w_ * (pf[0] - pn[0]), pn[1] + w_ * (pf[1] - pn[1])), on(pts[rnd.choice([lk, other])], pts[b], t1)]
+    else:
+        tr = [on(pts[rnd.choice([lk, other])], pts[b], rnd.choice([0.25, 0.5]), rnd.choice([0, 0.1, -0.1])),
+              on(pts[rnd.choice([lk, other])], pts[b], rnd.choice([0.6, 0.8]), rnd.choice([0, 0.1, -0.1]))]
+    tr.append(on(pts[c], pts[d], rnd.choice([0.7, 0.9]), rnd.choice([0, 0.05])) if rnd.random() < 0.7 else on(pts[b], pts[f], 0.3))
+    if rnd.random() < 0.5:
+        tr.append(on(pts[d], pts[g_], 0.4))
+    cfg = gen_cfg(rnd, only_edges=True, cutoffs=rnd.random() < 0.3)
+    cfg['obs_noise'] = rnd.choice([0.5, 1, 2])
+    return {'graph': g, 'trace': tr, 'cfg': cfg, 'linked': linked}
 
 
 def gen_case(rnd, **kw):
